@@ -475,7 +475,7 @@ def run_concurrent(ctx, peer, idents, state, tmp, mon):
     from nauyaca.security.tofu import TOFUDatabase
 
     good = x509.load_der_x509_certificate(idents["good"].der)
-    reps = ctx.pick(3, 25)
+    reps = ctx.pick(3, 60)
     for rep in range(reps):
         for scenario in ("changed-pinned", "racing-first-contact"):
             for op in ("get", "upload"):
